@@ -34,8 +34,22 @@ def app_program(app: Dict[str, Any]) -> list:
     prog: list = []
     if app.get("pre_delay"):
         prog.append(["sleep", app["pre_delay"]])
-    prog.append(["recv_all", app.get("recv_delay", 0)])
-    prog.append(["respond", 200, [["content-length", "2"]], ["ok"]])
+    start = {"type": "http.response.start", "status": 200, "headers": [["content-length", "2"]]}
+    body = {"type": "http.response.body", "body": "ok", "more_body": False}
+    mode = app.get("mode", "read_first")
+    if mode == "start_first":  # streaming style: response head before the request body is read
+        prog.append(["send", start])
+        prog.append(["recv_all", app.get("recv_delay", 0)])
+        prog.append(["send", body])
+    elif mode == "one_then_start":
+        prog.append(["recv"])
+        prog.append(["send", start])
+        prog.append(["recv_all", app.get("recv_delay", 0)])
+        prog.append(["send", body])
+    else:
+        prog.append(["recv_all", app.get("recv_delay", 0)])
+        prog.append(["send", start])
+        prog.append(["send", body])
     prog.append(["recv_disc"])
     return prog
 
@@ -63,7 +77,9 @@ def case_strategy(draw: Any, proto: str) -> Dict[str, Any]:
             "root_path": draw(st.sampled_from(["", "", "/api", "/a/b/"])),
         },
         "app": {"pre_delay": draw(st.sampled_from([0, 0, 0.5, 2.0])),
-                "recv_delay": draw(st.sampled_from([0, 0, 0, 0.01, 1.0]))},
+                "recv_delay": draw(st.sampled_from([0, 0, 0, 0.01, 1.0])),
+                "mode": draw(st.sampled_from(["read_first", "read_first", "start_first",
+                                              "one_then_start"]))},
         "sock": draw(st.sampled_from(["inet", "inet", "inet6", "unix"])),
         "truncate": truncate,
     }
@@ -294,7 +310,8 @@ def run_case(case: Dict[str, Any]) -> CaseInfo:
     reqs = case["requests"]
     classes = ["opening=" + case["opening"], "seg=" + case["seg"]["mode"],
                "between=" + case["seg"]["between"], f"nreq={len(reqs)}",
-               "queue=%d" % case["cfg"]["max_app_queue_size"]]
+               "queue=%d" % case["cfg"]["max_app_queue_size"],
+               "app=" + case["app"].get("mode", "read_first")]
     if any(r["body_len"] > 65536 for r in reqs):
         classes.append("body>64KiB")
     if any(r.get("framing") == "chunked" and len(r["chunks"]) > case["cfg"]["max_app_queue_size"]
